@@ -393,7 +393,7 @@ fn op_shrink(ctx: &mut Ctx, sc: &mut dyn ScopeOps) {
             ctx.remove_block(b.id);
             let id = ctx.add_block(ptr, len, nl.align(), shadow, None);
             let d = log_op(ctx, sc, &text, &format!("ok {id} {ptr} {len}"));
-            if (via == Via::WithoutShrink || !ctx.sh) && b.ptr % nl.align() == 0 && d.typed.allocated < before.typed.allocated {
+            if (via == Via::WithoutShrink || !ctx.sh) && d.cur == before.cur && d.typed.allocated < before.typed.allocated {
                 ctx.oracle("C13", format!("`{text}`: shrinking is disabled but allocated() decreased {} -> {}", before.typed.allocated, d.typed.allocated));
             }
         }
